@@ -33,7 +33,7 @@ var reqLines = []string{
 	"OPTIONS * HTTP/1.1", "GET http://h/p HTTP/1.1", "CONNECT h:80 HTTP/1.1", "GET h:80 HTTP/1.1", "GET 1ttp://h/ HTTP/1.1",
 	"PUT /p HTTP/2.0", "GET  HTTP/1.1", "GET /  HTTP/1.1", "GET / HTTP/1.x", "GET / HTTX/1.1", "GET / HTTP/1.10", "GET /",
 	"GET", " / HTTP/1.1", "G@T / HTTP/1.1", "GET /\x01 HTTP/1.1", "GET /\x7f HTTP/1.1", "get / http/1.1", "GET /a b HTTP/1.1",
-	"GET / HTTP/1.1\r", "GET /\tHTTP/1.1", "G\xc3\xa9T / HTTP/1.1", "* * HTTP/1.1", "GET * HTTP/1.1", "GET :// HTTP/1.1",
+	"GET / HTTP/1.1\r", "GET / HTTP/x.1", "GET / HTTP/1x1", "GET / HTTP/1.", "GET /\tHTTP/1.1", "G\xc3\xa9T / HTTP/1.1", "* * HTTP/1.1", "GET * HTTP/1.1", "GET :// HTTP/1.1",
 }
 
 var respLines = []string{
@@ -41,7 +41,7 @@ var respLines = []string{
 	"HTTP/1.1 101 Switching Protocols", "HTTP/1.1 100 Continue", "HTTP/1.1 404", "HTTP/1.1 500 ", "HTTP/1.1  200 OK", "HTTP/1.1 20 OK",
 	"HTTP/1.1 2000 OK", "HTTP/1.1 2x0 OK", "HTTP/1.1 200OK", "HTTP/1.1", "HTTP/1.1 ", "HTTP/2.0 200 OK", "HTTX/1.1 200 OK", " 200 OK",
 	"HTTP/1.1 200 O\rK", "HTTP/1.1 000 Zero", "HTTP/1.1 099 Low", "HTTP/1.1 199 x", "HTTP/1.1 -20 OK", "HTTP/1.1 200 a b c",
-	"HTTP/1.0 204 nc", "HTTP/1.1 +20 OK",
+	"HTTP/1.0 204 nc", "HTTP/1.1 +20 OK", "HTTP/x.1 200 OK", "HTTP/1x1 200 OK", "HTTP/1.x 200 OK",
 }
 
 var reqHeaders = []string{
@@ -52,6 +52,7 @@ var reqHeaders = []string{
 	"Transfer-Encoding: chunked", "Transfer-Encoding: Chunked", "Transfer-Encoding: identity", "Transfer-Encoding: gzip",
 	"Transfer-Encoding: gzip, chunked", "transfer-encoding: chunked", "Transfer-Encoding: chunked\r\nTransfer-Encoding: chunked",
 	"Transfer-Encoding: identity\r\nContent-Length: 3", "Transfer-Encoding:",
+	"Transfer-Encoding: chunked\r\nContent-Length: 3", "Content-Length: 3\r\nTransfer-Encoding: chunked", "Content-Length: 3\r\nTransfer-Encoding: identity",
 	"Connection: close", "Connection: keep-alive", "Connection: Close", "Connection: close, x", "Connection: Keep-Alive, Upgrade",
 	"connection: upgrade", "Connection:   close", "Connection: close\r\nConnection: keep-alive",
 	"Expect: 100-continue", "Trailer: Foo, Bar", "Trailer: Content-Length", "Trailer: foo,, ,bar", "Trailer: x-forwarded-for",
@@ -253,6 +254,15 @@ func corpus() []desc {
 		add(true, hd.Cfg{}, "HTTP/1.1 200 OK\r\n"+hh+"\r\n\r\n", "", "hello")
 		add(true, hd.Cfg{DisableNorm: true, Secure: true}, "HTTP/1.0 200 OK\r\n"+hh+"\r\n\r\n", "", "hello")
 	}
+	for _, hh := range []string{"Host: h", "host: h", "Host: a\r\nHost: b", "X: y", "Transfer-Encoding: chunked\r\nTransfer-Encoding: chunked",
+		"Transfer-Encoding: gzip", "Connection: keep-alive", "Connection: close"} {
+		add(false, hd.Cfg{DisableSpecial: true}, "POST / HTTP/1.1\r\n"+hh+"\r\n\r\n", "", "x")
+		add(false, hd.Cfg{DisableSpecial: true, DisableNorm: true}, "POST / HTTP/1.1\r\n"+hh+"\r\n\r\n", "", "x")
+		add(false, hd.Cfg{Secure: true}, "POST / HTTP/1.1\r\nHost: h\r\n"+hh+"\r\n\r\n", "", "x")
+		add(false, hd.Cfg{}, "POST / HTTP/1.0\r\n"+hh+"\r\n\r\n", "", "x")
+		add(true, hd.Cfg{Secure: true}, "HTTP/1.1 200 OK\r\n"+hh+"\r\n\r\n", "", "x")
+		add(true, hd.Cfg{}, "HTTP/1.0 200 OK\r\n"+hh+"\r\n\r\n", "", "x")
+	}
 	for _, l := range reqLines {
 		add(false, hd.Cfg{}, l+"\r\nHost: h\r\n\r\n", "", "x")
 		add(false, hd.Cfg{Secure: true}, l+"\nHost: h\n\n", "", "\r\n\r\n")
@@ -260,6 +270,16 @@ func corpus() []desc {
 	for _, l := range respLines {
 		add(true, hd.Cfg{}, l+"\r\nContent-Length: 0\r\n\r\n", "", "x")
 		add(true, hd.Cfg{Secure: true}, l+"\r\n\r\n", "", "x")
+	}
+	// every forbidden trailer name alone, and near misses (one branch of isBadTrailer each)
+	for _, n := range []string{"Authorization", "Content-Encoding", "Content-Length", "Content-Type", "Content-Range", "Connection", "Cookie",
+		"Expect", "Host", "Keep-Alive", "Location", "Max-Forwards", "Proxy-Connection", "Proxy-Authenticate", "Proxy-Authorization", "Range",
+		"Set-Cookie", "TE", "Trailer", "Transfer-Encoding", "WWW-Authenticate", "X-Forwarded-For", "x-forwarded", "X-Real-Ip", "x-real-ip-2",
+		"Authorizatio", "Content-Typ", "Content-Foo-Bar", "Content-Type2", "Connectio", "Cooki", "Expec", "Hos", "Keep-Aliv", "Locatio",
+		"Max-Forward", "Proxy-Connectio", "Proxy-Foo-Bar-Baz-Qux", "Proxy-Authenticat", "Rang", "Set-Cooki", "T", "Traile", "WWW-Authenticat",
+		"X-Forwarde", "X-Real-I", "Zeta", "b", "Etag", "Last-Modified", "Digest", ""} {
+		add(false, hd.Cfg{}, "POST / HTTP/1.1\r\nHost: h\r\nTrailer: "+n+"\r\n\r\n", "", "x")
+		add(true, hd.Cfg{DisableNorm: true}, "HTTP/1.1 200 OK\r\nTrailer: ok, "+strings.ToLower(n)+"\r\n\r\n", "", "x")
 	}
 	// degenerate inputs
 	for _, h := range []string{"", "\r\n", "\n", "\r\n\r\n", "\r", "G", "GET / HTTP/1.1", "GET / HTTP/1.1\r\n", "GET / HTTP/1.1\r\nHost: h\r\n", "\n\n\n"} {
@@ -284,13 +304,13 @@ func run(d desc) hlib.Case {
 	ctor := "CReq"
 	if d.Resp {
 		ctor = "CResp"
-		o0 = hd.ReadResp(d.Cfg, d.BSize, d.H, hd.ErrSentinel)
-		o1 = hd.ReadResp(d.Cfg, d.BSize, cat(d.H, d.S1), hd.ErrSentinel)
-		o2 = hd.ReadResp(d.Cfg, d.BSize, cat(d.H, d.S2), io.EOF)
+		o0 = hd.ReadResp(d.Cfg, d.BSize, 0, d.H, hd.ErrSentinel)
+		o1 = hd.ReadResp(d.Cfg, d.BSize, 0, cat(d.H, d.S1), hd.ErrSentinel)
+		o2 = hd.ReadResp(d.Cfg, d.BSize, 0, cat(d.H, d.S2), io.EOF)
 	} else {
-		o0 = hd.ReadReq(d.Cfg, d.BSize, d.H, hd.ErrSentinel)
-		o1 = hd.ReadReq(d.Cfg, d.BSize, cat(d.H, d.S1), hd.ErrSentinel)
-		o2 = hd.ReadReq(d.Cfg, d.BSize, cat(d.H, d.S2), io.EOF)
+		o0 = hd.ReadReq(d.Cfg, d.BSize, 0, d.H, hd.ErrSentinel)
+		o1 = hd.ReadReq(d.Cfg, d.BSize, 0, cat(d.H, d.S1), hd.ErrSentinel)
+		o2 = hd.ReadReq(d.Cfg, d.BSize, 0, cat(d.H, d.S2), io.EOF)
 	}
 	c := hlib.Case{Kind: ctor + ":" + d.Gen, Size: len(d.H)}
 	c.Coq = hlib.App(ctor, d.Cfg.Coq(), hlib.Nat(d.BSize), hlib.Hex(d.H), hlib.Hex(d.S1), hlib.Hex(d.S2), o0.Coq, o1.Coq, o2.Coq)
